@@ -600,3 +600,84 @@ Proof.
   - repeat split; auto. lia.
   - destruct (subst_fix _ _ _) as [vals conv]. simpl. rewrite map_length. repeat split; auto. lia.
 Qed.
+
+(* ---------- eliminable differentiated states (get_derivative path) ---------- *)
+Lemma extract2_sound r sts all0 al mt e x v :
+  extract2 sts all0 al mt e = E2Alg x v \/ extract2 sts all0 al mt e = E2State x v ->
+  (eval r e = 0 <-> r x = eval r v).
+Proof.
+  unfold extract2. destruct e as [y | q | o a | o d0 d1]; try (intros [H | H]; discriminate).
+  - destruct (mem y all0 && mem y mt); [| intros [H | H]; discriminate].
+    destruct (mem y sts); intros [H | H]; inversion H; subst; simpl; tauto.
+  - pose proof (mk_un_sound r Neg d0) as M0. pose proof (mk_un_sound r Neg d1) as M1.
+    revert M0 M1. generalize (mk_un Neg d0) as n0, (mk_un Neg d1) as n1. intros n0 n1 M0 M1.
+    destruct o; try (intros [H | H]; discriminate); cbv beta zeta;
+      repeat match goal with
+        | |- context [match ?d with Sym _ => _ | _ => _ end] => is_var d; destruct d
+        | |- context [if ?c then _ else _] => destruct c
+        end; intros [H | H]; try discriminate; inversion H; subst; simpl in *; rewrite ?M0, ?M1;
+      rewrite ?Qc_add_0, ?Qc_sub_0; split; intro K;
+      first [now symmetry | exact K | rewrite K; ring | rewrite <- K; ring].
+Qed.
+
+Local Opaque GD_FUEL promote dexpr.
+(* the loop with states: the consumed equations TOGETHER WITH the derivative definitions
+   der(x) = d/dt(value) (which get_derivative adds: they are not consequences of the pointwise
+   equations) are equivalent to the kept equations and all recorded definitions *)
+Lemma elim_loop2_sound r dermap all0 mt : forall es st defs st' d dd kept,
+  elim_loop2 dermap all0 mt st defs es = Some (st', d, dd, kept) ->
+  exists new, d = defs ++ new /\ (holds r es /\ facts r dd <-> holds r kept /\ facts r new).
+Proof.
+  induction es as [| e es IH]; intros st defs st' d dd kept; simpl.
+  - intro H. inversion H. subst. exists []. rewrite app_nil_r. split; auto.
+    split; intros _; split; constructor.
+  - destruct st as [[sts dmap] al].
+    destruct (extract2 sts all0 al mt e) as [| x v | x v] eqn:X.
+    + destruct (elim_loop2 dermap all0 mt (sts, dmap, al) defs es) as [[[[st1 d1] dd1] k1] |] eqn:E;
+        [| intro HH; inversion HH]. intro H. inversion H. subst.
+      destruct (IH _ _ _ _ _ _ E) as [new [Hd Hi]]. exists new. split; auto.
+      unfold holds in *. rewrite !Forall_cons_iff. tauto.
+    + intro H. destruct (IH _ _ _ _ _ _ H) as [new [Hd Hi]]. exists ((x, v) :: new).
+      split; [rewrite Hd, <- app_assoc; reflexivity |].
+      pose proof (extract2_sound r _ _ _ _ _ _ _ (or_introl X)) as Hx.
+      unfold holds, facts in *. rewrite !Forall_cons_iff. simpl. rewrite Hx. tauto.
+    + destruct (promote _ _ _ _ _) as [[[sts1 dmap1] al1] |];
+        [| intro HH; inversion HH].
+      destruct (lookup x dmap1) as [dx |]; [| intro HH; inversion HH].
+      destruct (elim_loop2 _ _ _ _ _ es) as [[[[st1 d1] dd1] k1] |] eqn:E; [| intro HH; inversion HH].
+      intro H. inversion H. subst.
+      destruct (IH _ _ _ _ _ _ E) as [new [Hd Hi]].
+      exists ((dx, dexpr GD_FUEL dmap1 defs v) :: (x, v) :: new).
+      split; [rewrite Hd, <- app_assoc; reflexivity |].
+      pose proof (extract2_sound r _ _ _ _ _ _ _ (or_intror X)) as Hx.
+      unfold holds, facts in *. rewrite !Forall_cons_iff. simpl. rewrite Hx. tauto.
+Qed.
+
+Definition elim2_defs (dermap : list (name * name)) (mt : list name) (m : model) : sub * sub :=
+  match elim_loop2 dermap (states m ++ algs m) mt (states m, combine (states m) (ders m), algs m) [] (eqs m) with
+  | Some (_, defs, ddefs, _) => (defs, ddefs)
+  | None => ([], [])
+  end.
+
+Theorem sound_eliminate_vars2 r dermap mt m :
+  acyclic (fst (elim2_defs dermap mt m)) -> failed m = false ->
+  failed (eliminate_vars2 dermap mt m) = false ->
+  (sat r m /\ facts r (snd (elim2_defs dermap mt m)) <-> sat r (eliminate_vars2 dermap mt m)).
+Proof.
+  unfold elim2_defs, eliminate_vars2. intros Hac Hf.
+  destruct (elim_loop2 dermap (states m ++ algs m) mt (states m, combine (states m) (ders m), algs m) [] (eqs m))
+    as [[[[[[sts dmap] al] defs] ddefs] kept] |] eqn:E; [| simpl; congruence].
+  simpl in Hac |- *.
+  destruct (has_dup (map fst defs)); [simpl; congruence |].
+  destruct (elim_loop2_sound r _ _ _ _ _ _ _ _ _ _ E) as [new [Hd L]]. simpl in Hd. subst new.
+  pose proof (subst_fix_iff r defs Hac) as FI.
+  destruct (subst_fix SUBSTITUTE_LOOP_LIMIT (map fst defs) (map snd defs)) as [vals conv].
+  simpl in FI. intros _. split.
+  - intros [[H1 H2 H3 H4 H5] Hdd]. destruct L as [L _]. destruct (L (conj H1 Hdd)) as [Hk Hdefs].
+    apply FI in Hdefs.
+    constructor; simpl; auto; [now apply holds_subst | now apply holds_subst | apply facts_app; auto].
+  - intros [H1 H2 H3 H4 H5]; simpl in *. apply facts_app in H5. destruct H5 as [Hg Hs].
+    apply -> (holds_subst r _ kept Hs) in H1. apply -> (holds_subst r _ (ieqs m) Hs) in H2.
+    destruct L as [_ L]. destruct (L (conj H1 (proj2 FI Hs))) as [He Hdd].
+    split; [constructor; simpl; auto | exact Hdd].
+Qed.
